@@ -13,6 +13,10 @@ CLAIMED = {
          'Static rule check: every container-open emission in the five decoders, the CBOR typed-array iterators and the TOON reader, and every encoder open, is dominated by an exact nesting-limit comparison whose failing edge stores the error and returns. Quantifies over code sites (all paths that open a container), which no depth test sample does.',
          'Decides clauses R10.*; does not decide stack bytes per level or memory proportionality as numbers. Known findings F9 (CBOR typed arrays) and F16 (TOON) are reported as KNOWN-FINDING.',
          'DESIGN.md §4 C10'),
+ 'C07': ('partial evaluation (constant propagation of the initial byte through the dispatch code) and comparison of the per-byte guarded-effect table with the specification table',
+         'Static table agreement: the 256-row dispatch tables of the binary decoders (bytes read, integer type, byte order, UTF-8 validation, event, tag, error) are extracted from the resolved AST by partial evaluation and compared row by row with specification tables written from the standards. Exhaustive over initial bytes per instantiation; no input is run.',
+         'Decides the per-byte dispatch rows; does not decide decoded values beyond width/signedness/order nor behaviour over all inputs. Trusted: clang 14, the plugin, the evaluator, the spec tables in /verif/spec.',
+         'DESIGN.md §4 C07'),
 }
 NOT_YET = 'check under construction in this session; no structural rule registered yet'
 NA = {}
